@@ -17,10 +17,31 @@ KINDS = ["Fuzzy", "Substring", "Prefix", "Postfix", "Exact"]
 MATCHER_FN = {"Fuzzy": "fuzzy", "Substring": "substring", "Prefix": "prefix", "Postfix": "postfix", "Exact": "exact"}
 
 
+def atom_helpers(facts):
+    """Bodies of `impl Atom` that reach a Matcher method (directly or through other helpers):
+    {path: set of Matcher callee names reachable}"""
+    reach = {}
+    bodies = {b["path"]: fn_of(b) for b in facts.bodies_of(M) if b["path"].startswith("pattern::Atom::") and b["kind"] != "Closure"}
+    for p, fn in bodies.items():
+        reach[p] = set(callee(t) for bi, t in fn.calls(lambda t: callee(t).startswith("Matcher::")))
+    changed = True
+    while changed:
+        changed = False
+        for p, fn in bodies.items():
+            for bi, t in fn.calls(lambda t: callee(t) in bodies and callee(t) != p):
+                add = reach[callee(t)] - reach[p]
+                if add:
+                    reach[p] |= add
+                    changed = True
+    return bodies, reach
+
+
 def rule_config_before_call(ctx):
     facts = ctx.facts
+    bodies, reach = atom_helpers(facts)
     total = 0
-    for name in ("pattern::Atom::score", "pattern::Atom::indices"):
+    entry = ("pattern::Atom::score", "pattern::Atom::indices")
+    for name in entry:
         fn = get_fn(facts, M, name)
         stores = {}
         for fld in ("ignore_case", "normalize"):
@@ -30,20 +51,32 @@ def rule_config_before_call(ctx):
                 src = fn.expr_of_rvalue(s["rv"])
                 base, names = field_chain(src)
                 tgt = fn.expr_of_place({"l": s["lhs"]["l"], "p": s["lhs"]["p"][:-1]})
-                if names == [fld] and base[0] == "arg" and base[2] == "self" and any(x[0] == "field" and x[2] == "config" for x in walk(tgt)):
+                if names == [fld] and base[0] == "arg" and base[1] == 1 and any(x[0] == "field" and x[2] == "config" for x in walk(tgt)):
                     stores[fld] = (bi, si)
                 else:
                     ctx.violation("%s|config.%s|source" % (name, fld), site(fn, bi, si), "matcher.config.%s is set from %s instead of the atom's own %s" % (fld, show(src), fld))
-        calls = [(bi, t) for bi, t in fn.calls(lambda t: callee(t).startswith("Matcher::"))]
+        calls = [(bi, t) for bi, t in fn.calls(lambda t: callee(t).startswith("Matcher::") or (callee(t) in reach and reach[callee(t)] and callee(t) not in entry))]
         for bi, t in calls:
             total += 1
             missing = [f for f in ("ignore_case", "normalize") if f not in stores or not (fn.dominates(stores[f][0], bi))]
+            what = callee(t) if callee(t).startswith("Matcher::") else "%s (which runs %s)" % (callee(t), sorted(reach[callee(t)])[0])
             if missing:
                 ctx.violation("%s|config-before|%s" % (name, callee(t).rsplit("::", 1)[1]), site(fn, bi),
-                              "%s is called before matcher.config.%s was set from this atom: the result depends on the atom that ran before on the shared matcher" % (callee(t), "/".join(missing)))
+                              "%s is called before matcher.config.%s was set from this atom: the result depends on the atom that ran before on the shared matcher" % (what, "/".join(missing)))
             else:
                 ctx.ok(site(fn, bi), "config.ignore_case and config.normalize are set from the atom before %s" % callee(t).rsplit("::", 1)[1])
-    ctx.floor("Matcher calls in Atom::score / Atom::indices", total, 15)
+    # helpers that run the matcher are private and only called from score / indices (or each other)
+    for p in reach:
+        if p in entry or not reach[p]:
+            continue
+        if p in ("pattern::Atom::match_list",):
+            continue
+        for fn2, bi2, t2 in calls_to(facts, M, lambda t, p=p: callee(t) == p):
+            root = fn2.b.get("root", fn2.path)
+            if root in entry or (root in reach and root != p):
+                continue
+            ctx.violation("%s|helper-caller|%s" % (p, root), site(fn2, bi2), "%s runs Matcher methods without setting the per-atom config and is called from %s" % (p, root))
+    ctx.floor("Matcher-reaching calls in Atom::score / Atom::indices", total, 2)
 
 
 def dispatch_tables(fn):
@@ -58,7 +91,6 @@ def dispatch_tables(fn):
             continue
         table = {}
         for v, bb in t["arms"]:
-            # first Matcher call reachable only through this arm
             cs = [(cb, ct) for cb, ct in fn.calls(lambda t: callee(t).startswith("Matcher::")) if fn.must_pass(cb, via_edges=[(bi, bb)]) and cb in fn.reach_from(bb)]
             table[v] = [(callee(ct), ct, cb) for cb, ct in cs]
         out.append((bi, table))
@@ -72,54 +104,112 @@ def rule_dispatch_tables(ctx):
     if sorted(discr.values()) != sorted(KINDS):
         ctx.fail_closed("AtomKind variants changed: %s" % discr)
         return
-    sc = get_fn(facts, M, "pattern::Atom::score")
-    ind = get_fn(facts, M, "pattern::Atom::indices")
-    tabs = [("score", sc, "_match")] + [("indices", ind, None)]
+    bodies, reach = atom_helpers(facts)
     found = 0
-    for label, fn, _ in tabs:
+    table_suffix = {}   # body path -> set of suffixes of its tables
+    for p, fn in bodies.items():
         for sb, table in dispatch_tables(fn):
             found += 1
-            # which suffix is expected: under self.negative == true -> _match ; positive indices -> _indices
-            gs = guards_of(fn, sb)
-            neg = [g for g in gs if g[3][0] == "field" and g[3][2] == "negative"]
-            if label == "score":
-                suffix = "_match"
-                tname = "score"
-            else:
-                if neg and neg[0][2] in ([None], [1]):
-                    suffix, tname = "_match", "indices(negative)"
-                elif neg:
-                    suffix, tname = "_indices", "indices(positive)"
-                else:
-                    ctx.violation("pattern::Atom::indices|table-guard|1", site(fn, sb), "kind dispatch in Atom::indices is not under the self.negative test")
-                    continue
+            suffixes = set()
             for d, kind in sorted(discr.items()):
                 ent = table.get(d, [])
-                key = "pattern::Atom::%s|dispatch|%s" % (tname, kind)
-                want = "Matcher::%s%s" % (MATCHER_FN[kind], suffix)
+                key = "%s|dispatch|%s" % (p, kind)
                 if len(ent) != 1:
-                    ctx.violation(key, site(fn, sb), "AtomKind::%s arm calls %s (expected exactly %s)" % (kind, [x[0] for x in ent], want))
+                    ctx.violation(key, site(fn, sb), "AtomKind::%s arm calls %s (expected exactly one Matcher::%s_match / _indices)" % (kind, [x[0] for x in ent], MATCHER_FN[kind]))
                     continue
                 c, ct, cb = ent[0]
-                a_h = fn.expr_of_operand(ct["args"][1])
+                suffix = "_indices" if c.endswith("_indices") else "_match"
+                suffixes.add(suffix)
+                want = "Matcher::%s%s" % (MATCHER_FN[kind], suffix)
+                a_h = peel(fn.expr_of_operand(ct["args"][1]))
                 a_n = fn.expr_of_operand(ct["args"][2])
-                okargs = a_h[0] == "arg" and a_h[2] == "haystack" and a_n[0] == "call" and str(a_n[1]).endswith("Utf32String::slice") and field_chain(a_n[2][0])[1] == ["needle"]
+                okargs = a_h[0] == "arg" and a_n[0] == "call" and str(a_n[1]).endswith("Utf32String::slice") and field_chain(a_n[2][0])[1] == ["needle"]
                 if suffix == "_indices":
                     a_i = peel(fn.expr_of_operand(ct["args"][3]))
-                    okargs = okargs and a_i[0] == "arg" and a_i[2] == "indices"
+                    okargs = okargs and a_i[0] == "arg" and "Vec<u32>" in fn.b["locals"][a_i[1]]["ty"]
                 if c == want and okargs:
-                    ctx.ok(site(fn, cb), "%s: AtomKind::%s → %s(haystack, self.needle%s)" % (tname, kind, want.split("::")[1], ", indices" if suffix == "_indices" else ""))
+                    ctx.ok(site(fn, cb), "AtomKind::%s → %s(haystack, self.needle%s)" % (kind, want.split("::")[1], ", indices" if suffix == "_indices" else ""))
                 elif c != want:
                     ctx.violation(key, site(fn, cb), "AtomKind::%s is dispatched to %s instead of %s" % (kind, c, want))
                 else:
                     ctx.violation(key + "|args", site(fn, cb), "%s called with (%s, %s) instead of (haystack, self.needle.slice(..))" % (c, show(a_h)[:40], show(a_n)[:60]))
-    ctx.floor("kind dispatch tables", found, 3)
+            if len(suffixes) > 1:
+                ctx.violation("%s|dispatch|mixed" % p, site(fn, sb), "one kind dispatch mixes score-only and indices variants: %s" % sorted(suffixes))
+            table_suffix.setdefault(p, set()).update(suffixes)
+    ctx.floor("kind dispatch tables", found, 2)
+    # Atom::score reaches only *_match; Atom::indices: negated => only *_match, positive => *_indices
+    sc_reach = reach.get("pattern::Atom::score", set())
+    if any(c.endswith("_indices") for c in sc_reach):
+        ctx.violation("pattern::Atom::score|dispatch|indices", "pattern::Atom::score", "Atom::score reaches an *_indices matcher function")
+    elif sc_reach:
+        ctx.ok("pattern::Atom::score", "score-only dispatch for all five kinds")
+    ind = get_fn(facts, M, "pattern::Atom::indices")
+    for bi in sorted(ind.live):
+        t = ind.blocks[bi]["term"]
+        if t["k"] == "switch":
+            e = ind.expr_of_operand(t["discr"])
+            if e[0] == "field" and e[2] == "negative":
+                for edge_t, label in ((t["otherwise"], "negated"), ([b_ for v, b_ in t["arms"] if v == 0][0], "positive")):
+                    region = [b_ for b_ in ind.reach_from(edge_t) if ind.must_pass(b_, via_edges=[(bi, edge_t)])]
+                    reached = set()
+                    for x in region:
+                        tt = ind.blocks[x]["term"]
+                        if tt["k"] == "call":
+                            c = callee(tt)
+                            if c.startswith("Matcher::"):
+                                reached.add(c)
+                            elif c in reach:
+                                reached |= reach[c]
+                    has_idx = any(c.endswith("_indices") for c in reached)
+                    if label == "negated" and has_idx:
+                        ctx.violation("pattern::Atom::indices|dispatch|negated-indices", site(ind, bi), "a negated atom reaches %s: negated atoms must append nothing" % sorted(c for c in reached if c.endswith("_indices")))
+                    elif label == "positive" and not has_idx:
+                        ctx.violation("pattern::Atom::indices|dispatch|positive-no-indices", site(ind, bi), "a positive atom in indices() never calls an *_indices matcher function")
+                    elif reached:
+                        ctx.ok(site(ind, bi), "%s atoms in indices() use %s" % (label, "*_indices" if has_idx else "*_match"))
+
+
+def negation_shape(fn, region):
+    """Within `region` (blocks that run only for a negated atom) the result must be:
+    inner Some => None, inner None => Some(0). Accepts the if/else form, a match on the inner
+    option, or `inner.is_none().then_some(0)`. Returns (ok, detail)."""
+    some_none = none_some0 = False
+    for x in region:
+        blk = fn.blocks[x]
+        t = blk["term"]
+        if t["k"] == "call" and t["dest"]["l"] == 0 and callee(t).endswith("::then_some"):
+            r = fn.expr_of_operand(t["args"][0])
+            v = fn.expr_of_operand(t["args"][1])
+            if r[0] == "call" and str(r[1]).endswith("::is_none") and v[0] == "const" and v[1] == 0:
+                return True, "inner.is_none().then_some(0)"
+            return False, "then_some(%s) on %s" % (show(v), show(r)[:60])
+        for s in blk["stmts"]:
+            if not (s["k"] == "assign" and s["lhs"]["l"] == 0 and not s["lhs"]["p"]):
+                continue
+            e = fn.expr_of_rvalue(s["rv"])
+            inner_some = None
+            for g in guards_of(fn, x):
+                ge = g[3]
+                if ge[0] == "call" and str(ge[1]).endswith("::is_some"):
+                    inner_some = g[2] in ([None], [1])
+                elif ge[0] == "call" and str(ge[1]).endswith("::is_none"):
+                    inner_some = not (g[2] in ([None], [1]))
+                elif ge[0] == "discr" and "Option" in str(ge[2]):
+                    inner_some = g[2] == [1]
+            if e[0] == "agg" and e[1].endswith("Option::None") and inner_some is True:
+                some_none = True
+            elif e[0] == "agg" and e[1].endswith("Option::Some") and inner_some is False and list(e[2].values())[0][0] == "const" and list(e[2].values())[0][1] == 0:
+                none_some0 = True
+            else:
+                return False, "returns %s when the inner match is %s" % (show(e)[:60], {True: "Some", False: "None", None: "undetermined"}[inner_some])
+    if some_none and none_some0:
+        return True, "Some ⇒ None, None ⇒ Some(0)"
+    return False, "Some⇒None %s, None⇒Some(0) %s" % (some_none, none_some0)
 
 
 def rule_negation(ctx):
     facts = ctx.facts
     sc = get_fn(facts, M, "pattern::Atom::score")
-    # under negative: Some -> None, None -> Some(0); else returned unchanged
     sw = None
     for bi in sorted(sc.live):
         t = sc.blocks[bi]["term"]
@@ -133,55 +223,39 @@ def rule_negation(ctx):
         bi, t = sw
         tt = t["otherwise"]
         ft = [b_ for v, b_ in t["arms"] if v == 0][0]
-        # positive edge: _0 = pattern_score
         pos_ok = False
         for x in [b_ for b_ in sc.reach_from(ft) if sc.must_pass(b_, via_edges=[(bi, ft)])]:
             for s in sc.blocks[x]["stmts"]:
                 if s["k"] == "assign" and s["lhs"]["l"] == 0 and not s["lhs"]["p"]:
                     e = sc.expr_of_rvalue(s["rv"])
-                    if e[0] == "local" or (e[0] == "call" and str(e[1]).startswith("Matcher::")):
+                    if e[0] == "local" or e[0] == "call":
                         pos_ok = True
-        neg_some_none = neg_none_some0 = False
         region = [b_ for b_ in sc.reach_from(tt) if sc.must_pass(b_, via_edges=[(bi, tt)])]
-        for x in region:
-            for s in sc.blocks[x]["stmts"]:
-                if s["k"] == "assign" and s["lhs"]["l"] == 0 and not s["lhs"]["p"]:
-                    e = sc.expr_of_rvalue(s["rv"])
-                    gs = guards_of(sc, x)
-                    is_some = [g for g in gs if g[3][0] == "call" and str(g[3][1]).endswith("::is_some")]
-                    if e[0] == "agg" and e[1].endswith("Option::None") and is_some and is_some[0][2] in ([None], [1]):
-                        neg_some_none = True
-                    if e[0] == "agg" and e[1].endswith("Option::Some") and list(e[2].values())[0][0] == "const" and list(e[2].values())[0][1] == 0:
-                        if is_some and is_some[0][2] == [0]:
-                            neg_none_some0 = True
-        if pos_ok and neg_some_none and neg_none_some0:
-            ctx.ok(site(sc, bi), "positive atom: inner result unchanged; negated atom: Some ⇒ None, None ⇒ Some(0)")
+        okn, detail = negation_shape(sc, region)
+        if pos_ok and okn:
+            ctx.ok(site(sc, bi), "positive atom: inner result unchanged; negated atom: %s" % detail)
         else:
-            ctx.violation("pattern::Atom::score|negation|1", site(sc, bi), "negation shape broken (positive passthrough %s, Some⇒None %s, None⇒Some(0) %s)" % (pos_ok, neg_some_none, neg_none_some0))
+            ctx.violation("pattern::Atom::score|negation|1", site(sc, bi), "negation shape broken (positive passthrough %s; negated: %s)" % (pos_ok, detail))
     ind = get_fn(facts, M, "pattern::Atom::indices")
-    # under negative no *_indices method reachable; result = is_none().then_some(0)
+    found = False
     for bi in sorted(ind.live):
         t = ind.blocks[bi]["term"]
         if t["k"] == "switch":
             e = ind.expr_of_operand(t["discr"])
             if e[0] == "field" and e[2] == "negative":
+                found = True
                 tt = t["otherwise"]
                 region = [b_ for b_ in ind.reach_from(tt) if ind.must_pass(b_, via_edges=[(bi, tt)])]
                 bad = [callee(ind.blocks[x]["term"]) for x in region if ind.blocks[x]["term"]["k"] == "call" and callee(ind.blocks[x]["term"]).endswith("_indices")]
-                ts = [x for x in region if ind.blocks[x]["term"]["k"] == "call" and callee(ind.blocks[x]["term"]).endswith("::then_some")]
-                okv = False
-                for x in ts:
-                    tt_ = ind.blocks[x]["term"]
-                    r = ind.expr_of_operand(tt_["args"][0])
-                    v = ind.expr_of_operand(tt_["args"][1])
-                    if r[0] == "call" and str(r[1]).endswith("::is_none") and v[0] == "const" and v[1] == 0:
-                        okv = True
+                okv, detail = negation_shape(ind, region)
                 if bad:
                     ctx.violation("pattern::Atom::indices|negation|indices", site(ind, bi), "a negated atom calls %s: negated atoms must append nothing" % bad)
                 elif okv:
-                    ctx.ok(site(ind, bi), "negated atom in indices(): score-only call, result is_none().then_some(0), nothing appended")
+                    ctx.ok(site(ind, bi), "negated atom in indices(): score-only call, result %s, nothing appended" % detail)
                 else:
-                    ctx.violation("pattern::Atom::indices|negation|value", site(ind, bi), "negated atom result is not `inner.is_none().then_some(0)`")
+                    ctx.violation("pattern::Atom::indices|negation|value", site(ind, bi), "negated atom result is wrong: %s" % detail)
+    if not found:
+        ctx.violation("pattern::Atom::indices|negation|0", site(ind, 0), "Atom::indices ignores self.negative")
 
 
 def check_sum_loop(ctx, fn, callee_name, label, needs_empty_exit):
